@@ -507,6 +507,12 @@ func shrinkRecipe(rc Recipe, f Failure) Recipe {
 		})
 		return k == "ok"
 	}
+	if rc.File != "" {
+		return shrinkTableFile(rc, still)
+	}
+	if rc.Cfg != nil {
+		return shrinkCfg(rc, still)
+	}
 	if rc.Bytes != "" {
 		for round := 0; round < 200; round++ {
 			dec := json.NewDecoder(strings.NewReader(rc.Bytes))
@@ -539,7 +545,7 @@ func shrinkRecipe(rc Recipe, f Failure) Recipe {
 	for round := 0; round < 200; round++ {
 		progressed := false
 		var cands []Recipe
-		if rc.Kind == "dm" {
+		if rc.Kind == "dm" || rc.Kind == "t-dm" || rc.Kind == "t-sm" {
 			for i := range rc.Ops {
 				c := rc
 				c.Ops = append(append([]Op{}, rc.Ops[:i]...), rc.Ops[i+1:]...)
@@ -553,10 +559,18 @@ func shrinkRecipe(rc Recipe, f Failure) Recipe {
 			c.Ents = append(append([]Ent{}, rc.Ents[:i]...), rc.Ents[i+1:]...)
 			cands = append(cands, c)
 		}
-		if rc.Kind == "dv" {
+		if rc.Kind == "dv" || rc.Kind == "t-dv" {
 			for i := range rc.Els {
 				c := rc
 				c.Els = append(append([]Elem{}, rc.Els[:i]...), rc.Els[i+1:]...)
+				cands = append(cands, c)
+			}
+		}
+		for i := range rc.Els { // integer elements: towards 1
+			if e := rc.Els[i]; e.R == nil && e.P.Int && e.P.Z != 1 && e.P.Z != 0 {
+				c := rc
+				c.Els = append([]Elem{}, rc.Els...)
+				c.Els[i] = Elem{P: El{Int: true, Z: 1}}
 				cands = append(cands, c)
 			}
 		}
